@@ -32,7 +32,7 @@ RULE = (
 )
 ASSUMPTIONS = [
     "alphabets of DESIGN.md section 4",
-    "NOT demanded: that the continued loaded tree follows the same trajectory as the continued original (a live CMA-ES deme's pickled randn carries a private generator copy)",
+    "equal continuation of restored and live tree (one metaepoch, from identical global generator states) is demanded only for trees without CMA-ES levels: a live CMA-ES deme's pickled randn carries a private generator copy",
 ]
 EXPLANATION = "crash-point enumeration: each metaepoch boundary of each run is a snapshot point; state = canonical tree census"
 
@@ -156,6 +156,7 @@ def run_world(res, desc, tmpdir):
         st_np = np.random.get_state()[1].tobytes(), np.random.get_state()[2]
         st_py = random.getstate()
         tree.pickle_dump(path)
+        rng_after = (np.random.get_state()[1].tobytes(), np.random.get_state()[2]), random.getstate()
         after = observe(tree)
         res.executions += 1
         res.by_bound[0] += 1
@@ -163,17 +164,19 @@ def run_world(res, desc, tmpdir):
         s = h64(canonical_state(tree, gsc_seen))
         res.states.add(s)
         res.transitions.add(h64((s, "dump+load", k)))
-        if (np.random.get_state()[1].tobytes(), np.random.get_state()[2]) != st_np or random.getstate() != st_py:
+        if rng_after[0] != st_np or rng_after[1] != st_py:
             res.add_violation(ID, "C19/dump-touched-rng", f"pickle_dump at boundary {k} changed the global random state", {}, rep)
         if calls_of(tree) != calls_before:
             res.add_violation(ID, "C19/dump-evaluated", f"pickle_dump at boundary {k} invoked the objective", {}, rep)
-        for fld in ("digest", "summary", "verdicts", "n", "levels"):
+        # a summary that names a NaN best is a random pick among the NaN individuals (by design): not compared
+        flds = ("digest", "verdicts", "n", "levels") if "nan" in before["summary"] else ("digest", "summary", "verdicts", "n", "levels")
+        for fld in flds:
             if before[fld] != after[fld]:
                 res.add_violation(ID, f"C19/dump-altered-live-tree:{fld}", f"pickle_dump at boundary {k} of {desc['engines']} changed the live tree ({fld})", {}, rep)
         loaded = DemeTree.pickle_load(path)
         os.remove(path)
         lo = observe(loaded)
-        for fld in ("digest", "summary", "verdicts", "n", "levels"):
+        for fld in flds:
             if before[fld] != lo[fld]:
                 eng = "+".join(desc["engines"])
                 res.add_violation(ID, f"C19/loaded-differs:{fld}", f"tree loaded from the snapshot at boundary {k} of {desc['engines']} differs from the original ({fld})",
@@ -183,7 +186,26 @@ def run_world(res, desc, tmpdir):
         base_levels = lo["levels"]
         best_seq = [loaded.best_individual.fitness]
         steps = 0
+        live_stepped = False
+        # differential continuation: a tree without live CMA-ES demes has no private generator state, so from identical
+        # global generator states the restored tree and the live tree must make the same next metaepoch
+        cma_live = any(type(d).__name__ == "CMADeme" and d.is_active for _, d in tree.all_demes)
+        twin_step = (not cma_live) and not tree.config.gsc(tree) and "CMA" not in "".join(desc["engines"])
         try:
+            if twin_step:
+                st = (np.random.get_state(), random.getstate())
+                loaded.run_step()
+                steps += 1
+                d_loaded = tree_digest(loaded)
+                np.random.set_state(st[0])
+                random.setstate(st[1])
+                tree.run_step()
+                live_stepped = True
+                if tree_digest(tree) != d_loaded:
+                    res.add_violation(ID, "C19/continuation-differs", f"from identical generator states the tree restored from the snapshot at boundary {k} of {desc['engines']} "
+                                      f"performs a different next metaepoch than the live tree (state lost or detached by the snapshot)", {}, rep)
+                else:
+                    res.flags["restored and live tree made the same next metaepoch"] += 1
             while not loaded.config.gsc(loaded) and steps <= Mh + 2:
                 loaded.run_step()
                 steps += 1
@@ -212,6 +234,9 @@ def run_world(res, desc, tmpdir):
             res.flags["snapshot with a hibernating deme"] += 1
         if len(res.samples) < 2 and k == 2:
             res.samples.append({"desc": desc, "snapshot_at": k, "demes": len(tree.all_demes), "loaded_continued_steps": steps, "summary_head": before["summary"][:200]})
+        if live_stepped:
+            k += 1
+            continue
         if tree.config.gsc(tree) or k > Mh + 1:
             break
         tree.run_step()
@@ -224,10 +249,12 @@ def worlds(tier, seed):
     s = 1 + seed % 1000
     shapes = [("SEA", "CMAf"), ("DE", "CMAw"), ("SHADE", "CMAs"), ("SOB", "DE"), ("LHS", "SHADE"), ("SEA", "LOC"), ("DE", "SEA", "CMAf"), ("SHADE", "SOB", "LOC"),
               ("GA", "LHS"), ("MWEA", "SEAX"), ("SEAA", "DEd"), ("DEd", "SOB")]
-    if tier == "thorough":
-        from ..runlib import shapes_h2, shapes_h3_cover
+    from ..runlib import shapes_h2, shapes_h3_cover
 
+    if tier == "thorough":
         shapes = shapes + [e for e in shapes_h2() if e not in shapes] + shapes_h3_cover()[::4]
+    else:
+        shapes = shapes + [e for e in shapes_h2()[::4] if e not in shapes] + shapes_h3_cover()[::28]
     out = []
     k = 0
     for eng in shapes:
@@ -241,6 +268,11 @@ def worlds(tier, seed):
                 if k % 5 == 0:
                     d["gsc"] = {"kind": "evals", "n": 70}
                 out.append(d)
+    # objective undefined (NaN) on half of the box: comparisons among NaN individuals draw from Python's `random`
+    for j, eng in enumerate([("SEA", "DE"), ("DE", "SHADE"), ("LHS", "SEAX"), ("GA",), ("SHADE", "SOB")]):
+        for hib in (False, True):
+            out.append(dict(engines=list(eng), gens=1, Mh=4, seed=s + j, hib=hib, lambda_obj=bool(j % 2), obj="nanhalf", maximize=bool(j % 2), pop=(6, 10)[j % 2],
+                            sprout={"kind": ("simple", "nbc")[j % 2], "L": 2}, lsc=[None] + [{"kind": "metaepoch", "m": 2}] * (len(eng) - 1)))
     return out
 
 
@@ -262,7 +294,7 @@ def run_unit(unit):
 def finish(res, tier):
     if len(res.nontrivial) < 60:
         raise Vacuous("few non-trivial snapshot points")
-    for f in ("snapshot with a live CMA-ES deme", "snapshot with a hibernating deme", "snapshot at the final boundary"):
+    for f in ("snapshot with a live CMA-ES deme", "snapshot with a hibernating deme", "snapshot at the final boundary", "restored and live tree made the same next metaepoch"):
         if res.flags[f] < 5:
             raise Vacuous(f"'{f}' seen {res.flags[f]} times")
     return {"snapshot_points": res.executions, "exhaustive": True}
